@@ -85,11 +85,11 @@ def main(argv=None):
     for k in unit_keys:
         fs = [f for f in findings if f.get("unit") == k]
         whens = [f["when"] for f in fs if f.get("when")]
-        jobs.append({"unit_key": k, "sidecar_modules": mods, "tier": a.tier, "pass_name": "main", "assume_not": whens, "assume": None})
+        jobs.append({"unit_key": k, "sidecar_modules": mods, "tier": a.tier, "pass_name": "main", "assume_not": whens, "assume": None, "only_prop": prop})
         for f in fs:
             if f.get("when"):
                 jobs.append({"unit_key": k, "sidecar_modules": mods, "tier": a.tier, "pass_name": "finding:" + f["id"],
-                             "assume_not": [], "assume": f["when"]})
+                             "assume_not": [], "assume": f["when"], "only_prop": prop})
     for k in lemma_keys:
         jobs.append({"unit_key": k, "sidecar_modules": mods, "tier": a.tier, "pass_name": "main", "assume_not": [], "assume": None})
     reports = []
